@@ -269,6 +269,22 @@ Section OnceVal.
      fun s _ => (s, fst s)].
 End OnceVal.
 
+(* B4. the temp-file registry (internal/driver/tempfile.go:38-60): deferDeleteTempFile appends under
+   tempFilesMu; cleanupTempFiles removes every registered file and empties the list in ONE section.
+   Shared = (registered names, names on disk, ghost: every name ever registered); local = "an
+   os.Remove of one of this thread's cleanups failed". *)
+Inductive rop := RReg (f : string) | RClean.
+Definition rstore := (list string * list string * list string)%type.
+Definition r_reg (s : rstore) := fst (fst s).
+Definition r_disk (s : rstore) := snd (fst s).
+Definition r_ever (s : rstore) := snd s.
+Definition rop_body (o : rop) : list (instr rstore bool) :=
+  match o with
+  | RReg f => [fun s l => ((f :: r_reg s, r_disk s, f :: r_ever s), l)]
+  | RClean => [fun s l => (([], filter (fun d => negb (mem d (r_reg s))) (r_disk s), r_ever s),
+                           (l || existsb (fun f => negb (mem f (r_disk s))) (r_reg s))%bool)]
+  end.
+
 (* ------------------------------------------------------------------------------------------ *)
 (* Part C: newTempFile (internal/driver/tempfile.go:25).  Directory: name -> None (absent) |
    Some None (existed before) | Some (Some i) (created by thread i).  One probe = one atomic
@@ -354,3 +370,30 @@ Inductive gkind :=
 | GG (g : guard)     (* mutex- or Once-guarded *)
 | GBarrier           (* handed to goroutines: distinct element per goroutine + WaitGroup barrier *)
 | GGlobal.           (* an unguarded package-level variable that some function writes *)
+
+(* ------------------------------------------------------------------------------------------ *)
+(* Part F: which assignments configure rejects (internal/driver/config.go:224-260, :297-313): the
+   answer depends on (name, value) only, never on the state or on what other threads do *)
+Fixpoint all_digits (s : string) : bool :=
+  match s with
+  | EmptyString => true
+  | String a r => (N.leb 48 (N_of_ascii a) && N.leb (N_of_ascii a) 57)%bool && all_digits r
+  end.
+Definition is_int (s : string) : bool :=     (* strconv.Atoi, for values that fit *)
+  let d := match s with
+           | String a r => if (Ascii.eqb a "-" || Ascii.eqb a "+")%bool then r else s
+           | EmptyString => s
+           end in
+  negb (String.eqb d "") && all_digits d.
+Definition sort_choices : list string := ["cum"; "flat"].
+Definition gran_choices : list string := ["functions"; "filefunctions"; "files"; "lines"; "addresses"].
+Definition conf_rejects (name value : string) : bool :=
+  if String.eqb name "nodecount" then negb (is_int value)
+  else if String.eqb name "sort" then negb (mem value sort_choices)
+  else if String.eqb name "granularity" then negb (mem value gran_choices)
+  else if mem name (sort_choices ++ gran_choices) then
+    negb (mem value ["1"; "t"; "T"; "TRUE"; "true"; "True"])               (* strconv.ParseBool = true *)
+  else if String.eqb name "focus" then false
+  else if String.eqb name "trim" then
+    negb (mem (to_lower value) ["true"; "t"; "yes"; "y"; "1"; ""; "false"; "f"; "no"; "n"; "0"])  (* stringToBool *)
+  else true.
